@@ -67,6 +67,7 @@ def check(repo, tier="quick"):
     res.rule("C24.c", "no function on the closure keeps state between calls (a worker process starts fresh, the serial run does not)")
     res.rule("C24.d", "write-set discipline: every file or directory created by a unit of work is named from the unit's output directory and the test case's name (or a picture index under it); directories are created with exist_ok=True")
     res.rule("C24.f", "no generator (or anything it calls) edits the codec features it is given: in a serial run all generators of a configuration share that one object, whereas every worker process unpickles its own copy")
+    res.rule("C24.g", "pickling is faithful (C27.c re-evaluated): the codec features and video parameters a worker command carries are restored through __reduce__ = (type, (), dict(self)) and the validated update path, so the worker sees the same entries in the same order as the serial run (file contents such as the picture metadata JSON are written in dictionary order)")
     res.rule("C24.e", "units of work: one per registered generator function, names distinct per registry, every generator module star-imported by its package; what is pickled is a partial of module-level functions only")
 
     mods = closure_modules(repo)
@@ -77,6 +78,14 @@ def check(repo, tier="quick"):
     rule_d(repo, res)
     rule_e(repo, res)
     rule_f(repo, res)
+    # what a worker process unpickles is what the serial run holds, entry for entry and in the same order
+    from . import c27 as _c27
+    from ..report import Ob as _Ob
+
+    for _o in _c27.check(repo, "quick").obs:
+        if _o.rule == "C27.c":
+            res._add(_Ob("C24.g", "%s/%s" % (_o.rule, _o.key), _o.where, _o.status, _o.detail, _o.by, _o.path))
+    res.floor("C24.g", 5)
     res.floor("C24.f", 20)
     res.floor("C24.a", 40)
     res.floor("C24.b", 40)
@@ -324,6 +333,23 @@ def rule_d(repo, res):
             rooted = "output_dir" in names
             named = "test_case.name" in names or d == "makedirs" and names == {"output_dir"}
             res.check(rooted and named and not extra, "C24.d", "%s:%s(%s)" % (fname, d, short(patharg, 40)), where, "the path `%s` is built from %s: files must live under the unit's output_dir and carry the test case's name, or two units of work can write the same file" % (short(patharg, 60), sorted(names)), by="output_dir + test_case.name%s" % (" + " + "/".join(lits) if lits else ""))
+    # per-configuration output directories: <output>/<name>/<encoder|decoder> with <name> the configuration's own
+    # (unique) name, used as it is -- a function of the name need not be injective
+    mfn = m.funcs.get("main")
+    if mfn is None:
+        raise AnalysisError("anchor vanished: cli.main")
+    loops = [l for l in ast.walk(mfn) if isinstance(l, ast.For) and isinstance(l.iter, ast.Call) and dotted(l.iter.func) == "codec_feature_sets.items" and isinstance(l.target, ast.Tuple) and len(l.target.elts) == 2]
+    dirs = []
+    for l in loops:
+        key = dotted(l.target.elts[0])
+        for a in ast.walk(l):
+            if isinstance(a, ast.Assign) and dotted(a.targets[0]) == "output_dir" and isinstance(a.value, ast.Call) and dotted(a.value.func) == "os.path.join":
+                parts = a.value.args
+                good = len(parts) == 3 and dotted(parts[0]) == "args.output" and dotted(parts[1]) == key and const_str(parts[2]) in ("encoder", "decoder")
+                dirs.append(const_str(parts[2]) if len(parts) == 3 else "?")
+                res.check(good, "C24.d", "main:output_dir:%s" % (const_str(parts[2]) if len(parts) == 3 else short(a.value, 30)), "%s:main" % m.rel, "each configuration's units of work must write under os.path.join(args.output, <the configuration's own name>, 'encoder'|'decoder') (found %s): names are unique per CSV, a transformed name need not be, and two configurations sharing a directory overwrite each other's files in an order that depends on the schedule" % short(a.value, 80), by="args.output / name / kind, name used unchanged")
+                n += 1
+    res.check(sorted(dirs) == ["decoder", "encoder"], "C24.d", "main:two-output-dirs-per-configuration", "%s:main" % m.rel, "main must derive exactly an encoder and a decoder output directory inside the loop over the configurations (found %s)" % dirs, by="encoder, decoder")
     # the makedirs the units of work call is os.makedirs itself (atomic with respect to a concurrent creator), the
     # test-then-create fallback being reachable only where os.makedirs has no exist_ok (Python 2)
     pm = repo.mod("py2x_compat")
